@@ -219,6 +219,11 @@ impl G<'_, '_> {
             0 => GNode::Scalar(self.scalar()),
             1 => {
                 self.budget -= 1;
+                if self.cfg.many_sections && self.t.chance(1, 6) {
+                    // a long array of scalars (beyond the small-slice threshold of the sorting code)
+                    let n = 21 + self.t.small(20);
+                    return GNode::Array((0..n).map(|_| GNode::Scalar(self.scalar())).collect());
+                }
                 let n = self.t.small(5);
                 GNode::Array((0..n).map(|_| self.value(depth + 1)).collect())
             }
